@@ -354,7 +354,7 @@ func exercise(data []byte, orig gen.TableSpec, otherData []byte, calls *int, via
 		}
 	}
 	if viaDir != 0 {
-		return exerciseDir(data, orig, otherData, viaDir, readAll)
+		return exerciseDir(data, orig, otherData, viaDir, readAll, calls)
 	}
 	return ""
 }
@@ -365,7 +365,7 @@ func exercise(data []byte, orig gen.TableSpec, otherData []byte, calls *int, via
 // dirStats: what the last exerciseDir call reached (one case runs at a time).
 var dirStats struct{ fileOpened, stackOpened, addOK, compactOK bool }
 
-func exerciseDir(data []byte, orig gen.TableSpec, otherData []byte, viaDir int, readAll func(string, reftable.Table) string) string {
+func exerciseDir(data []byte, orig gen.TableSpec, otherData []byte, viaDir int, readAll func(string, reftable.Table) string, calls *int) string {
 	dirStats.fileOpened, dirStats.stackOpened, dirStats.addOK, dirStats.compactOK = false, false, false, false
 	dir := ScratchDir()
 	defer os.RemoveAll(dir)
@@ -413,6 +413,9 @@ func exerciseDir(data []byte, orig gen.TableSpec, otherData []byte, viaDir int, 
 		return s
 	}
 	hs := orig.Cfg.HashSize()
+	// Add and CompactAll read through the damaged table many times (every block once or
+	// more); for the allocation bound they count as that many read calls
+	*calls += 2 * (len(data)/64 + 8)
 	// the reads behind Add: name validation against the (damaged) view
 	dirStats.addOK = nil == st.Add(func(w *reftable.Writer) error {
 		ui := st.NextUpdateIndex()
